@@ -183,6 +183,7 @@ pub fn expected_fields(op: &Op) -> Vec<FieldExp> {
 pub fn opt_id(parent: K, o: &Op) -> (K, u64) {
     match o.k {
         K::GcSet | K::HeSet => (o.k, o.arg(0)),
+        K::FaPoke => (o.k, o.arg(0) % crate::exec::FADT_POKE_FIELDS),
         K::FaFlag => (o.k, o.arg(0) % 25),
         K::LocSetInit | K::LocSetTarget => (o.k, o.arg(0)),
         K::LocSetEntry => (o.k, o.arg(0) << 32 | o.arg(1) & 0xffff_ffff),
@@ -237,6 +238,10 @@ pub fn governed(parent: &Op, o: &Op) -> Option<Vec<(usize, usize)>> {
         (K::Fadt, K::FaFw32 | K::FaFw64) => vec![(9, 1), (36, 4), (132, 8)],
         (K::Fadt, K::FaAcpiEnable | K::FaAcpiDisable) => vec![(9, 1), (52, 2)],
         (K::Fadt, K::FaGpe) => vec![(9, 1), (80, 8), (92, 3)],
+        (K::Fadt, K::FaPoke) => {
+            let (o_, l) = crate::exec::fadt_poke_range(o.arg(0));
+            vec![(9, 1), (o_, l)]
+        }
         _ => return None,
     })
 }
